@@ -8,6 +8,7 @@ import os
 import subprocess
 
 import common as C
+from props import c14lb as LB
 
 THEOREMS = ['builder_roundtrip', 'from_iter_session_full', 'builder_roundtrip_partial', 'from_iter_session',
             'builder_roundtrip_tuples_partial', 'builder_roundtrip_records_partial', 'snapshot_immutable',
@@ -15,7 +16,8 @@ THEOREMS = ['builder_roundtrip', 'from_iter_session_full', 'builder_roundtrip_pa
 COQ_DIR = os.path.join(C.VERIF, 'c14', 'coq')
 COQ_LOGICAL = '-R %s/coq AwkV -R . AwkBuilder' % C.VERIF
 NEEDS_SAN = True
-DRIVERS = ('builddrv',)
+DRIVERS = ('builddrv', 'lbdrv')
+PROPS_FILES = ['Props_C14.v', 'Props_C14lb.v']
 RULE = ('sessions = command sequences over {null,bool,int,real,str,bytes,beginlist,endlist,begintuple,index,endtuple,'
         'beginrecord(name|unnamed),field,endrecord,snapshot,clear}; 70% are the from_iter encoding of random nested '
         'values drawn from a random schema (ints/floats mixed, None anywhere, records with missing fields and varying '
@@ -72,6 +74,8 @@ def build():
         r = C.sh('make -s -C %s/c14/ocaml VERIF=%s' % (C.VERIF, C.VERIF))
         if r.returncode != 0 or not os.path.exists(os.path.join(BLD, 'buildrun')):
             raise C.BuildError('buildrun build failed:\n' + r.stdout[-4000:])
+        if not os.path.exists(os.path.join(BLD, 'lbrun')):
+            raise C.BuildError('lbrun build failed:\n' + r.stdout[-4000:])
     finally:
         fcntl.flock(lock, fcntl.LOCK_UN)
         lock.close()
@@ -265,6 +269,13 @@ def corpus_cases():
         for fn in sorted(os.listdir(CORPUS)):
             if fn.endswith('.case'):
                 out += replay_cases(os.path.join(CORPUS, fn), prefix='k_' + fn[:-5] + '_')
+            elif fn.endswith('.lbcase'):
+                # sessions of the Form-driven builder; lb-<signature>.lbcase holds the minimal sessions of a known
+                # deviation and is run once that signature is registered (open) in known_findings.json
+                sig = fn[:-7]
+                if sig.startswith('lb-') and sig in LB.SIGNATURES and sig not in LB.registered():
+                    continue
+                out += replay_cases(os.path.join(CORPUS, fn), prefix='k_' + fn[:-7] + '_')
     return out
 
 
@@ -313,6 +324,8 @@ def cases(rng, tier):
                 m = sprinkle(rng, m, 'clear', 1)
             full = sprinkle(rng, m, 'snapshot', rng.choice([1, 2, 4])) + ['snapshot']
             out.append(make_case('m%d' % i, opts, full, None, dict(tags, stream='mutated')))
+    # the Form-driven builder (LayoutBuilder): random forms x (encoded conforming values | mutated sessions)
+    out += LB.gen_sessions(rng, 1200 if tier == 'quick' else 20000, 40 if tier == 'quick' else 200, LB.registered())
     return out
 
 
@@ -422,6 +435,93 @@ def minimise(c, kind, san, budget=120):
 
 
 def run(cases, tier, rng):
+    lbcases = [c for c in cases if c.op == 'lb']
+    out = run_build([c for c in cases if c.op != 'lb'], tier, rng)
+    return run_lb(lbcases, tier, out)
+
+
+def run_lb(cases, tier, out):
+    """the Form-driven builder sessions; merges into the summary `out` of the ArrayBuilder sessions"""
+    import re
+    import time
+    t = time.time()
+    results = LB.evaluate(cases, san=False)
+    C.log('lb: std evaluated %d sessions in %.1fs' % (len(cases), time.time() - t))
+    san_results = []
+    if tier == 'thorough' and os.path.exists(os.path.join(C.SAN, 'lbdrv')):
+        t = time.time()
+        san_results = LB.evaluate(cases, san=True)
+        C.log('lb: san evaluated %d sessions in %.1fs' % (len(cases), time.time() - t))
+    reg = LB.registered()
+    corr = out['corr_obligations']
+    corr.update({'corr:lb-values-vs-spec': True, 'corr:lb-misfit-reported': True, 'corr:lb-snapshot-immutable-impl': True})
+    verd, dist = out['verdicts'], out['distribution']
+    findings, distinct = [], set()
+    ncmp = nblen = 0
+    blen_case = None
+    for which, rs in (('std', results), ('san', san_results)):
+        for c, impl, v, err in rs:
+            k = kind_of(v)
+            verd['lb-' + which + ':' + k] = verd.get('lb-' + which + ':' + k, 0) + 1
+            if which == 'std':
+                for k2, v2 in (c.meta.get('tags') or {}).items():
+                    dist.setdefault('lb_' + k2, {})
+                    dist['lb_' + k2][str(v2)] = dist['lb_' + k2].get(str(v2), 0) + 1
+                for cl in c.meta.get('classes', []):
+                    dist.setdefault('lb_node_classes', {})
+                    dist['lb_node_classes'][cl] = dist['lb_node_classes'].get(cl, 0) + 1
+                m = re.search(r'\(ncmp (\d+)\)', v)
+                if m:
+                    ncmp += int(m.group(1))
+                m = re.search(r'\(blen (\d+)', v)
+                if m:
+                    nblen += int(m.group(1))
+                    if blen_case is None or len(c.line()) < len(blen_case[0].line()):
+                        blen_case = (c, impl, v)
+            if k in ('agree', 'skip'):
+                if k == 'agree' and which == 'std' and c.meta.get('nontrivial', True):
+                    distinct.add(c.body())
+                    if sum(1 for x in out['samples'] if ' lb ' in x) < 2:
+                        out['samples'].append(c.line()[:400])
+                continue
+            if k == 'bad':
+                corr['corr:lb-values-vs-spec'] = False
+                findings.append(dict(kind='bad', what='C14 LayoutBuilder session could not be evaluated: %s' % v[:300],
+                                     case_lines=[c.line()], signature=None, no_input=True, size=len(c.line())))
+                continue
+            sig = LB.signature(c, impl, v)
+            if sig is None:
+                if 'snapshot-changed' in v:
+                    corr['corr:lb-snapshot-immutable-impl'] = False
+                elif 'misfit-not-reported' in v:
+                    corr['corr:lb-misfit-reported'] = False
+                else:
+                    corr['corr:lb-values-vs-spec'] = False
+            findings.append(dict(kind='viol', what='LayoutBuilder (%s build): %s' % (which, v[:700]),
+                                 case_lines=[c.line(), '# impl: ' + impl[:1500], '# verdict: ' + v[:1500]] +
+                                 (['# stderr: ' + err.replace('\n', '\n# ')] if err else []),
+                                 signature=sig, size=len(c.line())))
+    if nblen and blen_case is not None and 'lb-length-constant' in reg:
+        c, impl, v = blen_case
+        findings.append(dict(kind='viol', what='LayoutBuilder::length() differs from the length of the snapshot taken at the same moment: %s' % v[:300],
+                             case_lines=[c.line(), '# impl: ' + impl[:1500], '# verdict: ' + v[:1500]],
+                             signature='lb-length-constant', size=len(c.line())))
+    best = {}
+    for f in findings:
+        m = re.search(r'\((value|type|conforming-prefix-raised|misfit-not-reported|partial-value|partial-invalid|snapshot-[a-z-]+|crash|timeout|constructor-raised)', f['what'])
+        key = (f['kind'], m.group(1) if m and f['signature'] is None else '', str(f['signature']))
+        if key not in best or f['size'] < best[key]['size']:
+            best[key] = f
+    out['findings'] = list(out['findings']) + sorted(best.values(), key=lambda f: (f.get('no_input', False), f['size']))
+    out['evaluations'] += len(cases) + len(san_results)
+    out['distinct_nontrivial'] += len(distinct)
+    dist['lb_observations_compared'] = {'n': ncmp}
+    dist['lb_length_differs_from_snapshot'] = {'n': nblen, 'reported_as_finding': 'lb-length-constant' in reg}
+    dist['lb_known_deviation_streams_enabled'] = {s: (s in reg) for s in sorted(LB.SIGNATURES)}
+    return out
+
+
+def run_build(cases, tier, rng):
     import time
     t = time.time()
     results = evaluate(cases, san=False)
